@@ -261,6 +261,17 @@ def _clean(n):
     return new
 
 
+def walk_no_sym(n):
+    """ast.walk over a resolved expression that does not descend into symbolic definitions (earlier statements)."""
+    todo = [n]
+    while todo:
+        x = todo.pop()
+        if x is None or isinstance(x, Sym) or not isinstance(x, ast.AST):
+            continue
+        yield x
+        todo.extend(ast.iter_child_nodes(x))
+
+
 def strip_refs(n):
     """Follow Ref chains to the defining expression (identity is lost; use for structure only)."""
     while isinstance(n, Ref):
@@ -508,7 +519,7 @@ class FuncFlow:
         """Record calls in a resolved expression; apply invalidation for mutating calls."""
         if resolved is None:
             return
-        for c in ast.walk(resolved) if not isinstance(resolved, Sym) else []:
+        for c in walk_no_sym(resolved):
             if isinstance(c, ast.Call):
                 self.calls.append((c, stmt, before))
                 if any(isinstance(a, FuncRef) for a in c.args) or \
